@@ -54,7 +54,7 @@ func (s *Stats) probe(k string) {
 type testingT interface{}
 type simT = *testing.T
 
-var Kinds = append([]string{"mesh3", "mesh2", "mesh3", "mesh3"}, prefixed("map:", MapKinds)...)
+var Kinds = append([]string{"mesh3", "mesh2", "mesh3", "mesh3big"}, prefixed("map:", MapKinds)...)
 
 func prefixed(p string, s []string) []string {
 	var out []string
@@ -72,6 +72,8 @@ func RunCase(t *testing.T, c *Case, src, sched *choice.Source, st *Stats) (fs []
 		return runMesh3(t, src, sched, st)
 	case c.Kind == "mesh2":
 		return runMesh2(src, st)
+	case c.Kind == "mesh3big":
+		return runMesh3Big(src, st)
 	case strings.HasPrefix(c.Kind, "map:"):
 		return runMapKind(c.Kind[4:], src, st)
 	}
